@@ -38,6 +38,7 @@ import (
 	"tunnox-core/internal/core/types"
 	"tunnox-core/internal/packet"
 	"tunnox-core/internal/protocol/session"
+	"tunnox-core/internal/protocol/httptypes"
 	"tunnox-core/internal/protocol/session/connstate"
 )
 
@@ -51,12 +52,15 @@ const (
 	opClose     = 5  // n c
 	opTick      = 6  // d (units)
 	opStale     = 7  // n c: node n's periodic sweep finds control connection c silent beyond HeartbeatTimeout
+	opSend      = 8  // n x via: node n forwards a command (via 0: SendCommandToClient) / an HTTP request (via 1: SendHTTPProxyRequest) to client x
+	opSendRace  = 9  // n c x shape via pos: the same, while x's handshake on connection c of the SAME node completes inside the
+	//                forwarder's lookup (pos 0: right before the client-index read, 1: right before the conn_state read)
 	opSReg      = 10 // n c x ctl
 	opSUnreg    = 11 // n c
 	opSRefresh  = 12 // n c
 )
 
-var opName = map[int]string{0: "Connect", 1: "AuthOK", 2: "AuthFail", 3: "Kick", 4: "Heartbeat", 5: "Close", 6: "Tick", 7: "StaleSweep",
+var opName = map[int]string{0: "Connect", 1: "AuthOK", 2: "AuthFail", 3: "Kick", 4: "Heartbeat", 5: "Close", 6: "Tick", 7: "StaleSweep", 8: "Forward", 9: "ForwardRacingLogin",
 	10: "Register", 11: "Unregister", 12: "Refresh"}
 
 type caseIn struct {
@@ -131,7 +135,37 @@ func (h *authHandler) GetClientConfig(conn session.ControlConnectionInterface) (
 // ---------------------------------------------------------------------------------------------
 // the cluster
 // ---------------------------------------------------------------------------------------------
+// hookStore: the node's real storage as seen by its connstate.Store, with a one-shot hook that runs right before a chosen
+// read (deterministic stand-in for "another goroutine of this node gets scheduled exactly here")
+type hookStore struct {
+	storage.Storage
+	prefix string // armed: run fn before the next Get of a key with this prefix
+	fn     func()
+}
+
+func (h *hookStore) Get(key string) (any, error) {
+	if h.fn != nil && strings.HasPrefix(key, h.prefix) {
+		fn := h.fn
+		h.fn = nil
+		fn()
+	}
+	return h.Storage.Get(key)
+}
+func (h *hookStore) CompareAndSwap(key string, o, n any, ttl time.Duration) (bool, error) {
+	if cas, ok := h.Storage.(storage.CASStore); ok {
+		return cas.CompareAndSwap(key, o, n, ttl)
+	}
+	return false, errors.New("no CompareAndSwap")
+}
+func (h *hookStore) SetNX(key string, v any, ttl time.Duration) (bool, error) {
+	if cas, ok := h.Storage.(storage.CASStore); ok {
+		return cas.SetNX(key, v, ttl)
+	}
+	return false, errors.New("no SetNX")
+}
+
 type world struct {
+	hooks  []*hookStore
 	ctx    context.Context
 	cancel context.CancelFunc
 	mr     *miniredis.Miniredis
@@ -174,6 +208,7 @@ func newWorld(backend string, nodes int, ttl time.Duration, withSessions bool) *
 	w.auth = make([]*authHandler, nodes+1)
 	w.cloud = make([]*managers.BuiltinCloudControl, nodes+1)
 	w.states = make([]*repos.ClientStateRepository, nodes+1)
+	w.hooks = make([]*hookStore, nodes+1)
 	var sharedMem *memory.Storage
 	var sharedHybrid *hybrid.Storage
 	switch backend {
@@ -219,8 +254,10 @@ func newWorld(backend string, nodes int, ttl time.Duration, withSessions bool) *
 			sm.SetAuthHandler(w.auth[n])
 			sm.SetCloudControl(session.NewCloudControlAdapter(w.cloud[n]))
 			sm.SetNodeID(nodeName(n))
-			store := session.NewConnectionStateStore(w.st[n], nodeName(n), ttl)
+			w.hooks[n] = &hookStore{Storage: w.st[n]}
+			store := session.NewConnectionStateStore(w.hooks[n], nodeName(n), ttl)
 			sm.SetConnectionStateStore(store)
+			sm.SetCrossNodePool(session.NewCrossNodePool(ctx, w.st[n], nodeName(n), session.DefaultCrossNodePoolConfig()))
 			w.sms[n] = sm
 			w.cs[n] = store
 		} else {
@@ -286,6 +323,28 @@ func (w *world) apply(o []int, tr map[[2]int]*transport) bool {
 	case opStale:
 		w.sms[n].VerifC08SweepStale(connName(arg(o, 2)))
 		return false
+	case opSend:
+		w.forward(n, arg(o, 2), arg(o, 3))
+		return false
+	case opSendRace:
+		// [9, n, c, x, shape, via, pos]
+		c, x, via, pos := arg(o, 2), arg(o, 3), arg(o, 5), arg(o, 6)
+		fired, hsErr := false, false
+		login := func() {
+			fired = true
+			hsErr = w.apply([]int{opAuthOK, n, c, x, arg(o, 4)}, tr)
+		}
+		w.hooks[n].prefix = strings.TrimSuffix(w.cs[n].VerifClientKey(1), "1")
+		if pos == 1 {
+			w.hooks[n].prefix = w.cs[n].VerifConnKey("")
+		}
+		w.hooks[n].fn = login
+		w.forward(n, x, via)
+		w.hooks[n].fn = nil
+		if !fired { // the forwarder never reached that read (e.g. it found the client locally): the login simply happens next
+			login()
+		}
+		return hsErr
 	case opSReg:
 		ct := "control"
 		if arg(o, 4) == 0 {
@@ -367,6 +426,17 @@ func storeIndexes(ct string) bool {
 }
 
 var shapeIsControl [nShapes]bool
+
+// the forwarding paths that READ the location (command_forwarder.go, http_proxy.go); their own outcome is irrelevant here
+func (w *world) forward(n, x, via int) {
+	ctx, cancel := context.WithTimeout(w.ctx, 150*time.Millisecond)
+	defer cancel()
+	if via == 1 {
+		_, _ = w.sms[n].SendHTTPProxyRequest(int64(x), &httptypes.HTTPProxyRequest{RequestID: "verif", Method: "GET", URL: "http://verif.local/", Timeout: 1})
+		return
+	}
+	_, _ = w.sms[n].SendCommandToClient(ctx, int64(x), &packet.CommandPacket{CommandType: packet.ConfigGet, CommandId: "verif-cmd"}, 100*time.Millisecond)
+}
 
 // the OTHER cross-node location record: the client runtime state kept by cloud control (read on node m)
 func (w *world) stateLookup(m int, x int) [3]int {
@@ -458,7 +528,7 @@ func (g *ghost) step(o []int, errFlag bool, now int) {
 		if !errFlag {
 			g.conns[[2]int{n, arg(o, 2)}] = true
 		}
-	case opAuthOK:
+	case opAuthOK, opSendRace:
 		c, x := arg(o, 2), arg(o, 3)
 		if errFlag || x <= 0 {
 			return
@@ -562,6 +632,10 @@ func (g *ghost) check(o []int, now int, clients []int, ans [][][3]int, msgs [][]
 					case opAuthOK, opSReg:
 						if arg(o, 3) == x {
 							key = "register-not-visible"
+						}
+					case opSendRace:
+						if arg(o, 3) == x {
+							key = "forwarder-removed-fresh-registration"
 						}
 					}
 					got := "NOT_FOUND"
